@@ -101,6 +101,15 @@ def rt4 (inp : Bytes) : String :=
 def codecOp (toks : List String) : Option String :=
   match toks with
   | ["dec", entry, h] => (parseInput h).map (decEntry entry)
+  | ["dec2", entry, ha, hb] =>
+    -- decode A then B into the same Message, same family: each family decoder starts from a fresh family struct, so the
+    -- outcome is that of decoding B alone (cross-family pairs are not an op: the other family's pointer is left as it was)
+    match hexToBytes ha, hexToBytes hb with
+    | some a, some b =>
+      if entry != "plain" && entry != "gmm" && entry != "gsm" then none
+      else if entry == "plain" && (a.isEmpty || b.isEmpty || a.head? != b.head?) then none
+      else some (decEntry entry (some b))
+    | _, _ => none
   | ["enc", fam, hdr, name, fields] =>
     if hdr.startsWith "hdr=" then
       match hexToBytes (hdr.drop 4).toString, parseFields fields with
